@@ -120,8 +120,10 @@ else:
     def _get_non_none_type(t: Any) -> Any:
         """Extract the non-None type from Optional[T]."""
         if _is_optional(t):
-            args = get_args(t)
-            return next(arg for arg in args if arg is not type(None))
+            args = tuple(arg for arg in get_args(t) if arg is not type(None))
+            if len(args) == 1:
+                return args[0]
+            return Union[args]  # keep every alternative of Optional[Union[...]]
         return t
 
     def _resolve_type_alias(annotation, field_name=None, class_module=None):
@@ -264,6 +266,11 @@ else:
         if origin is Union:
             args = get_args(expected)
             non_none_args = [arg for arg in args if arg is not type(None)]
+
+            # An exact type match wins (as in Pydantic): "123" stays a str in Union[int, str]
+            for union_type in non_none_args:
+                if inspect.isclass(union_type) and type(value) is union_type:
+                    return value
 
             # Try each type in the union
             validation_errors = []
